@@ -530,9 +530,13 @@ class Interp:
 
     def st_For(self, s, cc):
         it = self.eval(s.iter, cc)
+        cc.__dict__["loop_broke"] = False
         self.run_loop(s.target, it, s.body, cc, s)
-        if s.orelse:
+        broke = cc.__dict__.get("loop_broke")
+        if s.orelse and broke is False:
             self.exec_block(s.orelse, cc)
+        elif s.orelse and broke is None:
+            self.note(f"for/else after a conditional break not interpreted in {self.where()}")
 
     def st_While(self, s, cc):
         # not part of any kernel: everything assigned becomes Top
@@ -556,6 +560,7 @@ class Interp:
 
     def st_Break(self, s, cc):
         cc.__dict__["saw_break"] = True
+        cc.__dict__["break_depth"] = sum(1 for f in self.frames if f.kind == "guard")
         raise _BranchExit()
 
     def st_Continue(self, s, cc):
@@ -699,13 +704,26 @@ class Interp:
             return
         ext, fn, info = desc
         if fn is None:
-            # literal sequence: unroll
+            # literal sequence: unroll; an unconditional `break` (no undecided guard between the loop and the break) ends the loop
+            g0 = sum(1 for f in self.frames if f.kind == "guard")
+            cc.__dict__["loop_broke"] = False
             for x in info[1]:
                 self.assign(target, x, cc, node)
+                cc.__dict__["break_depth"] = None
                 try:
                     self.exec_block(body, cc)
                 except _BranchExit:
                     pass
+                bd = cc.__dict__.get("break_depth")
+                if bd is not None:
+                    if bd == g0:
+                        cc.__dict__["loop_broke"] = True
+                        break
+                    # a break under an undecided condition: later iterations and the else-branch are only conditionally executed
+                    for n in _assigned_names(body):
+                        cc.env[n] = Top("loop left by a break under an undecided condition")
+                    cc.__dict__["loop_broke"] = None
+                    break
             return
         if "frames0" not in cc.__dict__:
             cc.frames0 = len(self.frames)
